@@ -98,9 +98,9 @@ Definition has_group_typed (c : econd) : bool := str_eqb (c_type c) has_group_s.
 (* no entry other than the first is blank throughout *)
 Definition no_paddingb (es : list redge) : bool := forallb (fun e => negb (edge_trivial e)) (tl es).
 Definition cond_agreesb (c : econd) : bool :=
-  (has_group_by_name_in_rows && has_group_by_name_from_noop) || negb (has_group_typed c).
+  (has_group_edges_by_name && has_group_by_name_from_noop) || negb (has_group_typed c).
 Definition edges_agreeb (es : list redge) : bool :=
-  (drops_padding_edges_everywhere || no_paddingb es) && forallb (fun e => cond_agreesb (e_cond e)) es.
+  (padding_edges_dropped_at_read || no_paddingb es) && forallb (fun e => cond_agreesb (e_cond e)) es.
 
 (* one row of the fragment: unnamed categories on every edge; node rows without node names / given ids, not random,
    carrying the class, the initial decision and at most the one action the reference reading of their kind gives *)
